@@ -65,6 +65,47 @@ Proof.
   destruct (c =? NL)%N; [congruence|]. destruct (split_inclusive r); congruence.
 Qed.
 
+Lemma split_inclusive_cons : forall c r, split_inclusive (c :: r) =
+  if (c =? NL)%N then [c] :: split_inclusive r
+  else match split_inclusive r with [] => [[c]] | p :: ps => (c :: p) :: ps end.
+Proof. reflexivity. Qed.
+
+Lemma split_inclusive_no_nl : forall l, l <> [] -> contains_nl l = false -> split_inclusive l = [l].
+Proof.
+  induction l as [|c r IH]; intros Hne H; [congruence|].
+  cbn [contains_nl existsb] in H. apply orb_false_elim in H as [Hc Hr].
+  rewrite split_inclusive_cons, Hc. destruct r as [|d r']; [reflexivity|].
+  rewrite IH; [reflexivity | congruence | exact Hr].
+Qed.
+
+Lemma chunk_pieces_single : forall c, split_inclusive (c_str c) = [c_str c] -> chunk_pieces c = [c_str c].
+Proof. intros c H. unfold chunk_pieces. rewrite H. destruct (c_ty c) as [[|]|]; reflexivity. Qed.
+
+Lemma nows_trim_blanks : forall s, nows (trim_blanks s) = nows s.
+Proof.
+  induction s as [|c r IH]; [reflexivity|]. cbn [trim_blanks].
+  destruct ((c =? 32) || (c =? 9))%N eqn:E; [|reflexivity]. rewrite IH.
+  unfold nows. cbn [filter]. assert (Hw : is_ws c = true).
+  { apply orb_prop in E as [E|E]; apply N.eqb_eq in E; subst; reflexivity. }
+  rewrite Hw. reflexivity.
+Qed.
+
+Lemma nows_concat_map_trim : forall ps, nows (concat (map trim_blanks ps)) = nows (concat ps).
+Proof. induction ps as [|p r IH]; [reflexivity|]. cbn [map concat]. rewrite !nows_app, nows_trim_blanks, IH. reflexivity. Qed.
+
+Lemma nows_chunk_pieces : forall c, nows (concat (chunk_pieces c)) = nows (c_str c).
+Proof.
+  intros c. unfold chunk_pieces. rewrite <- (concat_split_inclusive (c_str c)) at 2.
+  destruct (split_inclusive (c_str c)) as [|p rest]; [reflexivity|].
+  destruct (c_ty c) as [[|]|]; try reflexivity. cbn [concat]. rewrite !nows_app, nows_concat_map_trim. reflexivity.
+Qed.
+
+Lemma chunk_pieces_nonempty : forall c, c_str c <> [] -> chunk_pieces c <> [].
+Proof.
+  intros c H. unfold chunk_pieces. pose proof (split_inclusive_nonempty _ H).
+  destruct (split_inclusive (c_str c)); [congruence | discriminate].
+Qed.
+
 Lemma nows_concat_join_nl : forall ls, nows (join_nl ls) = nows (concat ls).
 Proof.
   induction ls as [|l rest IH]; simpl; auto.
@@ -170,7 +211,7 @@ Proof. intros; unfold set_indent; destruct (j_indent st); reflexivity. Qed.
 
 Lemma acc_join_chunk : forall o c e last st, acc (join_chunk o c e last st) = acc st ++ nows (c_str c).
 Proof.
-  intros; unfold join_chunk. rewrite acc_fold_pieces, acc_set_indent, concat_split_inclusive; reflexivity.
+  intros; unfold join_chunk. rewrite acc_fold_pieces, acc_set_indent, nows_chunk_pieces; reflexivity.
 Qed.
 
 (* the chunks never contain an empty text: invariant of push_type (`if str.is_empty() { return self; }`) *)
@@ -189,7 +230,7 @@ Proof.
   induction cs as [|c rest IH]; intros st Hne Hall; [congruence|]. simpl.
   inversion Hall as [|? ? Hc Hrest]; subst.
   destruct rest as [|d rest'].
-  - simpl. unfold join_chunk. apply line_fold_pieces_last. apply split_inclusive_nonempty; assumption.
+  - simpl. unfold join_chunk. apply line_fold_pieces_last. apply chunk_pieces_nonempty; assumption.
   - apply IH; [congruence | assumption].
 Qed.
 
@@ -351,11 +392,11 @@ Qed.
    lines that hold everything up to and including the comment and the lines that hold everything behind it.
    No later token is ever put behind a line comment. *)
 Theorem line_comment_ends_line : forall pre c ind post o,
-  c_ty c = Some Comment -> c_str c <> [] -> nonempty_chunks post ->
+  c_ty c = Some Comment -> c_str c <> [] -> contains_nl (c_str c) = false -> nonempty_chunks post ->
   exists l1 l2, join_lines (pre ++ c :: mkChunk None ind [NL] :: post) o = l1 ++ l2 /\
     nows (concat l1) = nows (chunks_text (pre ++ [c])) /\ nows (concat l2) = nows (chunks_text post).
 Proof.
-  intros pre c ind post o Hty Hne Hpost.
+  intros pre c ind post o Hty Hne Hnl Hpost.
   set (nl := mkChunk None ind [NL]).
   replace (pre ++ c :: nl :: post) with ((pre ++ [c; nl]) ++ post) by (rewrite <- app_assoc; reflexivity).
   unfold join_lines. rewrite join_loop_split.
@@ -363,12 +404,12 @@ Proof.
   assert (Hline1 : j_line S1 = []).
   { subst S1. rewrite join_loop_ctx_app. cbn [join_loop_ctx app].
     set (S0 := join_loop_ctx o pre ([c; nl] ++ post) j_init).
-    unfold join_chunk at 1. cbn [c_str c_ty nl split_inclusive fold_left]. replace ((NL =? NL)%N) with true by reflexivity.
-    cbn [fold_left]. apply nl_piece_flushes.
-    unfold join_chunk. rewrite Hty. cbn [next_is_nl is_nl_chunk c_str nl text_eqb].
-    replace ((NL =? NL)%N) with true by reflexivity. cbn [andb].
-    apply wide_set_indent.
-    apply wide_comment_fold; [apply split_inclusive_nonempty; assumption | apply split_inclusive_pieces_nonempty]. }
+    unfold join_chunk at 1. replace (chunk_pieces nl) with [[NL]] by reflexivity.
+    cbn [fold_left c_ty nl]. apply nl_piece_flushes.
+    unfold join_chunk. rewrite Hty, (chunk_pieces_single c (split_inclusive_no_nl _ Hne Hnl)).
+    cbn [next_is_nl is_nl_chunk c_str nl text_eqb].
+    replace ((NL =? NL)%N) with true by reflexivity. cbn [andb fold_left].
+    apply wide_set_indent. apply wide_comment_piece. exact Hne. }
   pose proof (acc_join_loop_ctx o (pre ++ [c; nl]) post j_init) as Hacc1. fold S1 in Hacc1.
   unfold acc at 1 in Hacc1. rewrite Hline1 in Hacc1. cbn [nows filter] in Hacc1. rewrite app_nil_r in Hacc1.
   change (acc j_init) with (@nil N) in Hacc1. cbn [app] in Hacc1.
@@ -479,7 +520,7 @@ Lemma squeezed_join_loop : forall o cs st, squeezed st -> squeezed (join_loop o 
 Proof.
   induction cs as [|c r IH]; intros st H; cbn [join_loop]; [exact H|]. apply IH. unfold join_chunk.
   assert (H0 : squeezed (set_indent st (c_indent c))) by (unfold set_indent; destruct (j_indent st); exact H).
-  revert H0. generalize (set_indent st (c_indent c)). induction (split_inclusive (c_str c)) as [|p ps IHp]; intros s Hs; cbn [fold_left];
+  revert H0. generalize (set_indent st (c_indent c)). induction (chunk_pieces c) as [|p ps IHp]; intros s Hs; cbn [fold_left];
     [exact Hs | apply IHp; apply squeezed_join_piece; exact Hs].
 Qed.
 
